@@ -65,6 +65,9 @@ def run(rep, tier, rng):
         rr = r.fork("t%d" % i)
         ops, leaves = merkle_case(rr)
         cases.append(gen_exec.case_line(2**32 - 1, gen_exec.gen_stack(rr), [], "T 0 " + gen_exec.span(ops)) + " | %d | M %s" % (100 + i, " ".join(map(str, leaves))))
+    # spans whose cycle count is around 2^k - 1: no room for a HALT row before the random row
+    for k in list(range(56, 64)) + list(range(118, 126)):
+        cases.append(gen_exec.case_line(2**32 - 1, [1, 2, 3], [], "T 0 " + gen_exec.span(["noop"] * k)) + " | 5")
     out = common.run_impl("airfull", cases, tag="c12")
     for c, x in zip(cases, out):
         if not x.startswith("OK"):
